@@ -31,3 +31,11 @@ reg("C01", "^TestC01", q=(600, 1, 600), t=(4000, 16, 3000), batch=300,
          "PolygonZkEVMBridgeV2 bytecode) is compared, deposit by deposit, with the contract's algorithm/contract itself.",
     note="Trusted: ref.Frontier/BridgeLeaf (mirrors of DepositContractBase/getLeafValue, tied to the real contract by the EVM leg); go-ethereum simulated backend; indices >= 2^16 only via synthetic pre-states.",
     design="§3 C01")
+
+reg("C04", "^TestC04$", q=(150, 4, 900), t=(1500, 16, 3600), batch=150,
+    technique="property-based testing, metamorphic: rapid-generated histories with reorgs vs a twin store fed only the surviving blocks, compared over a reflection-enumerated query battery and table dumps",
+    text="Exploration: for each of the three stores, generated histories (all event kinds) with nested reorgs and new-fork "
+         "continuations; after every reorg and continuation the real store must answer every exported query, and hold every table, "
+         "exactly like a fresh store that only ever saw the surviving blocks.",
+    note="Trusted: the code itself on the shorter history (twin) + SQLite. Look-ups keyed by root hashes that only existed on the dropped fork are outside the domain (rht is documented as never pruned). Known findings F3/F4 are excluded by signature and counted.",
+    design="§3 C04")
